@@ -10,39 +10,6 @@ from lib import common
 from lib.common import enc_str, enc_ostr, enc_strs, dec_str, model_run_parallel
 
 PID = "C14"
-RULE = ("gen: every warning-related call site of myst_parser/**/*.py is re-read with ast into coq/Gen/Warnings.v and the "
-        "finite-table theorems are re-checked; correspondence: (a) MyST's _is_suppressed_warning and Sphinx's "
-        "is_suppressed_warning vs the two extracted predicates on an exhaustive set of small (type, subtype, suppress-list) "
-        "triples, (b) sequences of real create_warning calls interleaved with other nodes on a real docutils document and on "
-        "a document bound to a live Sphinx environment vs the extracted run, (c) missing '#target' links through the docutils "
-        "pipeline vs the modelled ResolveAnchorIds item, (d) for generated warning-heavy documents the warnings observed "
-        "with an empty suppress list are fed to the model, whose prediction for every subset S is compared with the "
-        "implementation run under S; search: direct metamorphic oracle on both front ends - log lines, system_message "
-        "nodes and the rest of pformat() under S = those under [] minus exactly the entries whose [type.subtype] tag "
-        "matches S (type, type.subtype, type.*); every myst.* tag seen is a MystWarnings value; non-trivial = at least one "
-        "warning is removed and at least one remains")
-TRUSTED = ["round 3: coq/Gen/WarnSrc.v is regenerated from warnings_.py by gen/c14_src.py (control flow translated by "
-           "gen/c13_pywalk.py; atomic expressions / statements by the tables of gen/c14_src.py into coq/Cfg/WarnSrcPrelude.v: "
-           "`x is None`, `'.' in s`, `s.split('.', 1)`, `==` between str and Optional[str], membership in a 3-tuple, "
-           "`subtype if isinstance(subtype, str) else subtype.value`, hasattr(document.settings, 'env') as a flag, "
-           "logger.warning as 'a line unless Sphinx's filter drops it', reporter.warning as 'a line and the node', "
-           "source/line/kwargs bookkeeping skipped) and proved equal to the hand model (Cfg/WarnSrcProofs.v)",
-           "coq/Cfg/Warn.v is a hand transcription of warnings_.create_warning/_is_suppressed_warning, of Sphinx 8.2.3 "
-           "is_suppressed_warning + WarningSuppressor (modelled external) and of the append_to/children test in "
-           "transforms.ResolveAnchorIds (checked by correspondence, not proved)",
-           "coq/Gen/Warnings.v is regenerated by gen/c14_warnings.py (fail-closed ast translator)",
-           "hand-written allow lists in Cfg/Warn.v: documented_nonmyst (ref.footnote), known_dead (DIRECTIVE_BODY), "
-           "exempt_files (_docs.py), docutils_level_sites (two untagged reporter.warning calls that replicate docutils' wording)"]
-ORACLES = {"O_sphinx_filter": "sphinx.util.logging.WarningSuppressor drops a record iff is_suppressed_warning(type, subtype, "
-                              "config.suppress_warnings): exercised by correspondence (b) on a live Sphinx app and by every Sphinx build of the search",
-           "O_reporter": "docutils Reporter.warning (halt_level default) writes one line to the warning stream and returns the "
-                         "system_message node: exercised by correspondence (b)",
-           "O_docutils_transforms": "NOT assumed for the docutils front end: reader transforms after MyST (DocTitle/DocInfo/Transitions) "
-                                    "see top-level system_message nodes; recorded as open finding and reproduced on every run"}
-ASSUMPTIONS = ["docutils halt_level at its default (above WARNING): with a lower halt_level reporter.warning raises and "
-               "suppression changes control flow - excluded by premise",
-               "Sphinx 8.2.3 as installed (its is_suppressed_warning is transcribed)",
-               "report_level <= WARNING so that warnings reach the stream"]
 
 SNIPPETS = {
     "notsup": "[a](path:x.md) [b](project:x.md)\n",
@@ -949,7 +916,7 @@ def search(ctx):
             check_doc(ctx, case, catalogue)
     # Sphinx front end (process pool: one build per (document, S))
     jobs = [(text, flags_of(ks), True) for ks, text in coverage_docs("sphinx")]
-    for i in range(ctx.budget(8, 70, 30)):
+    for i in range(ctx.budget(6, 70, 30)):
         ks, text = gen_doc(rng, "sphinx")
         jobs.append((text, flags_of(ks), False))
     from concurrent.futures import ProcessPoolExecutor
@@ -1032,19 +999,62 @@ def replay(ctx, data):
     return 0 if ok else 1
 
 
-LEVEL_TEXT = ("Proof (Coq): over the call-site table regenerated from the package source on every run, every warning call passes a "
-              "MystWarnings member (or the documented ref.footnote literal pair, or forwards such a parameter), no call logs an "
-              "untyped warning, explicit suppression tests name catalogue tags, every member except the reported dead entry has an "
-              "emission site (finite table, vm_compute, bound = the sites present); for all sequences of warning calls and other "
-              "output and all suppress lists, output under S = output under [] with exactly the log lines and system_message nodes "
-              "whose tag matches S (type, type.subtype, type.*) removed, in both front ends (C14_suppress_exact_partial); MyST's "
-              "mirror predicate equals Sphinx's for every dot-free type. Tie: regenerated table + differential correspondence of "
-              "the extracted model with the real predicates, real create_warning call sequences (docutils document / live Sphinx "
-              "environment) and generated documents.")
-LEVEL_NOTE = ("Partial: (1) guarded by xref_guard - in the docutils front end [](#missing) without link text gets its fallback text only "
-              "when myst.xref_missing is suppressed (C14_suppress_exact_refuted, C14_result_use_benign_refuted; open finding, the "
-              "behaviour is pinned by a test fixture); (2) docutils' own reader transforms that run after MyST (DocTitle/DocInfo "
-              "promotion, Transitions) treat a top-level system_message as content, so suppressing it can change the document "
-              "structure - not modelled, open finding reproduced by the search on every run; (3) premise halt_level default. "
-              "Trusted: Coq kernel, the hand transcription in Cfg/Warn.v (tied by correspondence), the allow lists in Cfg/Warn.v, "
-              "gen/c14_warnings.py, Sphinx's logging filter and docutils' Reporter as oracles.")
+# ------------------------------------------------------------------ final texts (MANIFEST level_claimed / level_note)
+RULE = ("gen (fail-closed, every run): Gen/Warnings.v (MystWarnings members + every warning-related call site of myst_parser/**/*.py: "
+        "kind, type / subtype expression, use of the returned node), Gen/WarnSrc.v (_is_suppressed_warning and create_warning "
+        "translated statement by statement); correspondence: MyST's and Sphinx's suppression predicates on an exhaustive set of small "
+        "(type, subtype, suppress-list) triples, sequences of real create_warning calls on a docutils document and on a document "
+        "bound to a live Sphinx environment, missing '#target' links through the docutils pipeline, and document-level predictions "
+        "(warnings observed under [] fed to the model, compared with the run under S); search: metamorphic oracle on both front "
+        "ends - log lines, system_message nodes, pformat() without them and the written HTML without them under S = those under [] "
+        "minus exactly the entries whose [type.subtype] tag matches S (type, type.subtype, type.*); every myst.* tag seen is a "
+        "MystWarnings value; a coverage pass (one document per snippet) + random combinations; every emitting call site of the "
+        "regenerated table must be executed (57 of 57) and every catalogue member with a site triggered (23 of 24, DIRECTIVE_BODY is "
+        "dead) else a search-coverage tie-break; non-trivial = at least one warning removed and one remaining")
+TRUSTED = [
+    "Coq 8.16.1 kernel; statements of coq/Props/C14.v; the allow lists of coq/Cfg/Warn.v: documented_nonmyst (ref.footnote), "
+    "known_dead (DIRECTIVE_BODY), exempt_files (_docs.py), docutils_level_sites (two untagged reporter.warning calls that replicate "
+    "docutils' own messages), known_side_effect_sites (ResolveAnchorIds.apply)",
+    "gen/c14_warnings.py (site table), gen/c14_src.py + gen/c13_pywalk.py and the domain mapping coq/Cfg/WarnSrcPrelude.v: "
+    "`x is None`, `'.' in s`, s.split('.', 1), == between str and Optional[str], membership in a 3-tuple, "
+    "`subtype if isinstance(subtype, str) else subtype.value`, hasattr(document.settings, 'env') as a flag, logger.warning as 'a line "
+    "unless Sphinx's filter drops it', reporter.warning as 'a line and the node'; source/line/kwargs bookkeeping has no effect",
+    "modelled externals: Sphinx 8.2.3 is_suppressed_warning + WarningSuppressor, docutils Reporter.warning (tied by correspondence)",
+    "harness-only instrumentation inside the check's process: fault injection for the HTML-parse handler and for an unknown block "
+    "token, a temporary directive creating an unreferenced auto-symbol footnote, call-stack tracing of the table sites",
+]
+ORACLES = {
+    "O_sphinx_filter": "sphinx.util.logging.WarningSuppressor drops a record iff is_suppressed_warning(type, subtype, config.suppress_warnings): "
+                       "create_warning sequences on a live Sphinx app and every Sphinx build of the search",
+    "O_reporter": "docutils Reporter.warning (halt_level default) writes one line and returns the system_message node: create_warning sequences",
+    "O_docutils_transforms": "NOT assumed: docutils' reader transforms after MyST (DocTitle/DocInfo/Transitions) see top-level "
+                             "system_message nodes - open finding, reproduced on every run",
+}
+ASSUMPTIONS = ["docutils halt_level at its default (above WARNING): with a lower level reporter.warning raises and suppression changes "
+               "control flow - excluded by premise",
+               "Sphinx 8.2.3 as installed (its is_suppressed_warning is transcribed); report_level <= WARNING",
+               "warning types are dot-free (true of every call site: C14_sites_typed)"]
+LEVEL_TEXT = (
+    "Proof (Coq, 18 theorems, all closed, coqchk). FULL over the call-site table REGENERATED from the package source on every run "
+    "(bound = the sites present, 79 today): every warning call passes a MystWarnings member, the documented ref.footnote literal pair or a "
+    "forwarded MystWarnings parameter, no call logs untyped, explicit suppression tests name catalogue tags (C14_sites_typed, "
+    "C14_untagged_sites_bounded, C14_site_tags_in_catalogue), every member except the reported dead entry DIRECTIVE_BODY has an "
+    "emission site (C14_catalogue_emitted). FULL dynamic: C14_suppress_exact_coupled - for all sequences of warning calls and other "
+    "output, all suppress lists, both front ends: output under S = output under [] with exactly the matching log lines and "
+    "system_message nodes removed, plus the one coupling of the code (fallback link text); C14_empty_suppresses_nothing, "
+    "C14_frontends_agree, C14_tag_matches_meaning. SOURCE-TRANSLATION TIE: C14_source_refines_model (_is_suppressed_warning and "
+    "create_warning REGENERATED statement by statement equal the model), C14_mirror_agrees_with_sphinx_src, "
+    "C14_suppressed_src_meaning, C14_suppress_exact_src. Tie: regenerated table and code + differential correspondence + metamorphic "
+    "search on both front ends that executes every emitting call site.")
+LEVEL_NOTE = (
+    "PARTIAL with refuted witnesses: C14_suppress_exact_partial (plain strip; guard: a link to a missing '#target' has explicit text) "
+    "/ C14_suppress_exact_refuted and C14_result_use_benign_partial / _refuted - OPEN FINDING "
+    "suppress-side-effect:xref_missing:fallback-link-text (docutils: [](#missing) shows '#missing' only when myst.xref_missing is "
+    "suppressed; the reordering repair breaks a pinned fixture; also listed by C09). C14_mirror_agrees_with_sphinx_partial (dot-free "
+    "types) / C14_mirror_dotted_type_refuted - unreachable, no site passes a dotted type. OPEN FINDING "
+    "suppress-side-effect:docutils:toplevel-system-message (docutils' own DocTitle/DocInfo promotion and footnote transition treat a "
+    "top-level system_message as content, so suppressing it changes the structure; outside the Coq model; Sphinx not affected). "
+    "Premise: halt_level default. Fix commits: 5f7eafa (MathJax override warning typed as MystWarnings.MATHJAX), 20bfbed (Sphinx "
+    "warning location 'x.md:N' instead of 'x.md.rst:N'). Observations: DIRECTIVE_BODY has no emission site; two untagged "
+    "docutils-level reporter.warning calls (Pygments lexer error, 'Raw content disabled.'); myst.html is reachable only by fault "
+    "injection since 6c06da7. Limits: docutils/Sphinx transforms are outside the model; allow lists are by file/function name.")
